@@ -1472,6 +1472,10 @@ func (fx *fnExec) havoc(ms *modSet, hint string) {
 			}
 			nv, _ := rebuild(old, nf)
 			fx.st.ghost[g] = nv
+			if fx.ghostTypes[g] == "RefBoolMap" {
+				gt := nv.(Sc).T
+				fx.assumps = append(fx.assumps, fmt.Sprintf("(assert (forall ((r$q Int)) (! (=> (select %s r$q) (select %s r$q)) :pattern ((select %s r$q)))))", gt.S, fx.alive(fx.st).S, gt.S))
+			}
 		}
 	}
 }
